@@ -120,6 +120,10 @@ def configs(tier: str) -> List[Cfg]:
                     for db in dbs:
                         res.append(Cfg.of(c.with_(stats=st), "ver:" + ",".join(s) + ex, db))
             res.append(Cfg.of(c.with_(stats=st), "base", "RuleDB"))  # nothing to expand: identity accepted
+            # nested verification: the pack offered for a verified class verifies a deeper class
+            for nested in ("ver2:a>ab", "ver2:e>a", "ver2:a>aa,ab", "ver2:b>ba,bb", "ver2:e,b>a,ba"):
+                for db in dbs:
+                    res.append(Cfg.of(c.with_(stats=st), nested, db))
     return res
 
 
